@@ -9,7 +9,7 @@
 From Coq Require Import List NArith ZArith.
 From Gemato Require Import Py.PyStr Py.PyPath Gen.Tables Gen.Util Model.Entry Model.Text Model.OpenPGP Model.Hash
   Model.FS Model.Verify Model.Loader.
-From Gemato Require Import Proofs.VerifyPath Proofs.KeepGoing Proofs.UtilSpec Proofs.DirSpec.
+From Gemato Require Import Proofs.VerifyPath Proofs.KeepGoing Proofs.UtilSpec Proofs.DirSpec Proofs.Compat.
 Import ListNotations.
 Open Scope N_scope.
 
@@ -79,3 +79,27 @@ Theorem C01_items_exactly : forall top rp dirnames filenames dirdict,
      exists de, assoc name dirdict = Some de /\ e = Some de).
 Proof. exact dir_items_spec. Qed.
 Print Assumptions C01_items_exactly.
+
+(* duplicate entries for one path: compatible exactly when the tags agree (or are both of the MANIFEST/DATA/EBUILD/AUX
+   family), the sizes are equal and every hash carried by both has the same value in both *)
+Theorem C01_duplicates_compatible_iff : forall t1 p1 a1 s1 c1 t2 p2 a2 s2 c2 ok diff,
+  t1 <> TTIMESTAMP -> t1 <> TIGNORE -> t2 <> TTIMESTAMP -> t2 <> TIGNORE ->
+  verify_entry_compatibility (EFile t1 p1 a1 s1 c1) (EFile t2 p2 a2 s2 c2) = Ok (ok, diff) ->
+  (ok = true <-> tags_compatible t1 t2 /\ s1 = s2 /\ common_hashes_agree c1 c2).
+Proof. exact compat_spec. Qed.
+Print Assumptions C01_duplicates_compatible_iff.
+
+(* ... so one conflicting common hash is an incompatibility, whatever other hashes either entry lists *)
+Theorem C01_conflict_not_forgiven : forall t1 p1 a1 s1 c1 t2 p2 a2 s2 c2 ok diff h a b,
+  t1 <> TTIMESTAMP -> t1 <> TIGNORE -> t2 <> TTIMESTAMP -> t2 <> TIGNORE ->
+  assoc h c1 = Some a -> assoc h c2 = Some b -> a <> b ->
+  verify_entry_compatibility (EFile t1 p1 a1 s1 c1) (EFile t2 p2 a2 s2 c2) = Ok (ok, diff) -> ok = false.
+Proof. exact conflict_not_forgiven. Qed.
+Print Assumptions C01_conflict_not_forgiven.
+
+(* non-vacuity: 'DATA f 1 MD5 aa' against 'DATA f 1 MD5 bb SHA512 cc' *)
+Example C01_conflict_example :
+  verify_entry_compatibility (EFile TDATA [102] [] 1 [([77;68;53], [97;97])])
+                             (EFile TDATA [102] [] 1 [([77;68;53], [98;98]); ([83;72;65;53;49;50], [99;99])])
+  = Ok (false, [([77;68;53], Some [97;97], Some [98;98]); ([83;72;65;53;49;50], None, Some [99;99])]).
+Proof. vm_compute. reflexivity. Qed.
